@@ -205,15 +205,46 @@ def h_cdf(ctx, m):
     alts = []
     for kk in range(m + 1):
         for S in itertools.combinations(range(m), kk):
-            cond = [ctx.le(xs[i], z) if i in S else ctx.gt(xs[i], z) for i in range(m)]
+            # (the samples and z are inputs: in the concrete twin they are compared exactly,
+            # a query exactly at a sample value is the interesting case)
+            if is_sym(ctx):
+                cond = [ctx.le(xs[i], z) if i in S else ctx.gt(xs[i], z) for i in range(m)]
+            else:
+                cond = [bool(xs[i] <= z) if i in S else bool(xs[i] > z) for i in range(m)]
             alts.append(ctx.all_(cond + [ctx.close(v, ctx.const(kk) / m, 1e-12)]))
     ctx.claim('right_continuous_step_function', ctx.any_(alts))
     ctx.claim('in_unit_interval', ctx.all_([ctx.ge(v, 0), ctx.le(v, 1)]))
 
 
+def h_concrete_boxes(ctx):
+    """Real code, fixed non-dyadic boxes: scaled points stay inside [-1, 1] /
+    [0, 1] in floating point as well (a scaled bound may round to 1 + 2^-52),
+    points on or outside the box go to the boundary index.  Supplementary:
+    exact arithmetic cannot see the rounding of the affine map."""
+    rng = np.random.default_rng(7)
+    ok_range, ok_ind = True, True
+    boxes = [(-3.0, -2.6), (0.1, 0.7), (-1.3, 2.9), (5.3, 5.9), (-0.7, -0.1)]
+    boxes += [tuple(sorted(rng.uniform(-5, 5, size=2))) for _ in range(60)]
+    for a, b in boxes:
+        if b - a < 1e-3:
+            continue
+        X = np.array([[a], [b], [a - 0.5], [b + 0.5], [a - 1e-13], [b + 1e-13], [(a + b) / 2]])
+        for kind, lo, hi in (('uni', 0., 1.), ('cheb', -1., 1.)):
+            S = teneva.poi_scale(X, a, b, kind)
+            ok_range = ok_range and bool(np.all(S >= lo) and np.all(S <= hi))
+            for n in (2, 8):
+                I = teneva.poi_to_ind(X, a, b, n, kind)
+                first, last = (0, n - 1) if kind == 'uni' else (n - 1, 0)
+                want = [first, last, first, last, first, last]
+                ok_ind = ok_ind and [int(v) for v in I[:6, 0]] == want
+    ctx.claim('scaled_points_inside_the_target_interval', bool(ok_range))
+    ctx.claim('points_outside_go_to_the_boundary_index', bool(ok_ind))
+
+
 def instances(tier):
     out = []
     quick = tier == 'quick'
+    out.append({'func': 'h_concrete_boxes', 'params': {}, 'opts': {'concrete_only': True}})
     for d in ([1, 2] if quick else [1, 2, 3]):
         for batch in (False, True):
             out.append({'func': 'h_uni_roundtrip', 'params': {'d': d, 'batch': batch}})
